@@ -248,6 +248,7 @@ func init() {
 		ruleWildcardOpt(c, r)
 		rulePredicateKey(c, r)
 		ruleVisitorCopy(c, r)
+		ruleLeafrefNoWildcard(c, r)
 	})
 }
 
